@@ -2,7 +2,9 @@ package stk
 
 import (
 	"os"
+	"strings"
 	"testing"
+	"testing/cryptotest"
 
 	"verifsim/kad"
 	"verifsim/sess"
@@ -18,6 +20,12 @@ func TestSim(t *testing.T) {
 		prop = "C01"
 	}
 	simcore.Main(prop, Catalogue, func(st *simcore.Stream, tier, leg string, logOn bool, res *simcore.Result) {
+		if strings.HasPrefix(leg, "quic/") {
+			// Tier B: third-party goroutines, real clock, sequential workload, outcome-level oracles
+			cryptotest.SetGlobalRandom(t, res.Seed)
+			RunTierB(prop, st, tier, leg, logOn, res)
+			return
+		}
 		simcore.Bubble(t, res.Seed, func() {
 			switch prop {
 			case "C01":
